@@ -234,6 +234,14 @@ impl AuxMap {
     }
 }
 
+#[cfg(feature = "verif-hooks")]
+impl AuxMap {
+    /// Verification hook: (lg_size, count, raw entries in table order, 0 = empty).
+    pub(super) fn verif_raw(&self) -> (u8, u32, Vec<u32>) {
+        (self.lg_size, self.count, self.entries.to_vec())
+    }
+}
+
 /// Iterator over AuxMap entries
 pub struct AuxMapIter {
     entries: std::vec::IntoIter<u32>,
